@@ -200,6 +200,8 @@ impl SourceView {
         let idx = idx as usize;
         // The lock is held for the whole call: `lines` and `processed_until` are
         // only consistent with each other while no other thread is indexing.
+        #[cfg(sourcemap_verif)]
+        verif_hooks::yield_point(self, 0);
         let mut lines = self.lines.lock().unwrap();
         if idx < lines.len() {
             return Some(lines[idx]);
